@@ -352,6 +352,16 @@ class SeqOf(Spec):
         return q
 
 
+class Make(Spec):
+    """A stub object built by a callable(name) (file handles, events, stat results)."""
+
+    def __init__(self, factory):
+        self.factory = factory
+
+    def fresh(self, name):
+        return self.factory(name)
+
+
 class TupleOf(Spec):
     def __init__(self, *items: Spec):
         self.items = items
